@@ -27,7 +27,7 @@ COMPONENTS = {"real": ["yowsup.stacks.YowStack / YowStackBuilder", "yowsup.layer
 ASSUMPTIONS = ["six 1.17 shim on sys.path", "not judged (the statement is silent, the library relies on the current "
                "behaviour): whether the siblings of an emitter inside a parallel group and the emitter itself see the "
                "event, and whether group members placed after a consuming member still see it"]
-BUDGET = {"quick": (12000, 120), "thorough": (200000, 1200)}
+BUDGET = {"quick": (12000, 120), "thorough": (1000000, 1800)}
 FAULTS = ["loop_task_delay"]
 PROBES = ["deferred_by_loop_task", "deferred_by_other_stacks_loop", "group_shape", "reversed_true", "builder_pop",
           "instances", "implicit_group", "consumer_stops", "interface_in_group"]
